@@ -893,6 +893,12 @@ func checkC09(c *Ctx) {
 		R.lost("C09.unwind", "pkg/exec.evalExecBlock")
 	}
 
+	// a body that handled an exception yields a value (the handler's 输出 or 空), never a nil element
+	ruleNilNil(c, u, "C09.value", []string{"pkg/exec"})
+
+	// loops let everything except their own 继续/结束 signals through: an exception raised in a loop body leaves the loop
+	borrowRule(c, "C02", "C02.signals", "C09.loops")
+
 	// ---- C09.scopes: blocks between the raise point and the handler end their own scope even though the
 	// top frame belongs to the failed callee while the error propagates (same rule as C06.pair)
 	ruleScopePairing(c, u, "C09.scopes")
